@@ -119,3 +119,12 @@ pub fn with_tokens(word: &str, n: usize, len: usize) -> String {
     while a < n { let t = vsym::any_token("arg", len); line = [&line, " ", &t].concat(); a += 1; }
     line
 }
+pub fn resp_text(r: &Response) -> String {
+    match r {
+        Response::Ok {} => String::from("ok"),
+        Response::Set { key, value } => ["set ", key, " ", value].concat(),
+        Response::Value { key, value, version } => ["value ", key, " ", value, " ", &version.to_string()].concat(),
+        Response::Error { msg } => ["error ", msg].concat(),
+        Response::VersionError { msg, key, old_version, version, old_value: _, change: _, db: _, state: _ } => ["version-error ", msg, " ", key, " ", &old_version.to_string(), " ", &version.to_string()].concat(),
+    }
+}
